@@ -195,13 +195,14 @@ func (g *SessionManager) getXid(msg interface{}) string {
 		xid = tmpMsg.Xid
 	} else if tmpMsg, ok := msg.(message.BranchReportRequest); ok {
 		xid = tmpMsg.Xid
-	} else {
-		msgType := reflect.TypeOf(msg)
-		msgValue := reflect.ValueOf(msg)
-		if msgType.Kind() == reflect.Ptr {
-			msgValue = msgValue.Elem()
+	} else if msg != nil {
+		// any other message: use its Xid field (possibly promoted from an embedded request) if it has one
+		msgValue := reflect.Indirect(reflect.ValueOf(msg))
+		if msgValue.Kind() == reflect.Struct {
+			if field := msgValue.FieldByName("Xid"); field.IsValid() && field.Kind() == reflect.String {
+				xid = field.String()
+			}
 		}
-		xid = msgValue.FieldByName("Xid").String()
 	}
 	return xid
 }
